@@ -57,6 +57,21 @@ def gen(rng, tier):
             if anc is not None:
                 anc = [[[rng.randint(0, 2), rng.randint(0, 2)] for _ in range(nv)] for _ in range(ns)]
             ops = [{"k": "missing", "discard": True}] + ops[:1]
+        if t % 20 == 7:
+            # a fixed share: a cohort of 25 or 50 samples and a threshold typed as a decimal (0.14, 0.28, 0.07) that the minor allele
+            # frequency of the first variant equals exactly (7 of 50, 14 of 50, 7 of 100 alleles): equal is not below
+            ns, cnt, den = rng.choice([(25, 7, 50), (25, 14, 50), (50, 7, 100)])
+            nv = max(nv, 2)
+            names = [f"v{j}" for j in range(nv)]
+            data = [[[rng.choice([0, 1]), rng.choice([0, 1]), 1] for _ in range(nv)] for _ in range(ns)]
+            ones = set(rng.sample(range(2 * ns), cnt))
+            minor = rng.choice([0, 1])  # the minor allele is the alternate or the reference allele
+            for i in range(ns):
+                for k_ in (0, 1):
+                    data[i][0][k_] = (1 if (2 * i + k_) in ones else 0) ^ minor
+            if anc is not None:
+                anc = [[[rng.randint(0, 2), rng.randint(0, 2)] for _ in range(nv)] for _ in range(ns)]
+            ops = [{"k": "maf", "num": cnt, "den": den, "discard": rng.random() < 0.5, "warn": rng.random() < 0.3}]
         yield {"cls": cls, "g": {"samples": [f"s{i}" for i in range(ns)], "vars": names, "data": data, "anc": anc, "hasPhase": True, "isBool": False, "ancestryClass": cls == "GenotypesAncestry"}, "ops": ops}
 
 
